@@ -46,7 +46,7 @@ func (pc ProbeConfig) yaml() string {
 	if ex == "" {
 		ex = "exec:\n  filename: graph/generated.go\n  package: graph\n"
 	}
-	return "schema:\n  - schema.graphql\n" + ex + "model:\n  filename: graph/models_gen.go\n  package: graph\n" + pc.Extra
+	return "schema:\n  - schema.graphql\n" + ex + "model:\n  filename: graph/models_gen.go\n  package: graph\nmodels:\n  Boom:\n    model: verif/exech.Boom\n" + pc.Extra
 }
 
 type Built struct {
